@@ -139,6 +139,8 @@ def check(ctx):
     F = ctx.F
     check_step(ctx, "serial_next", False)
     check_step(ctx, "par_next", True)
+    from .common import check_population_size
+    check_population_size(ctx, "R09.1")
     # ---- who may write Generation.population -------------------------------------
     writers = set()
     for fn in F.fns.values():
